@@ -1403,7 +1403,7 @@ LEVEL_NOTE = ("Trusted: Lean kernel, the regex translator + compiler probe, the 
               "derived from Array<T> — Stack, Queue, StreamBuffer — used the raw memory of the handle; ops wd / wdsb / rd; in the model such an object is the Array it is, so "
               "array_canonical / array_get_put apply; that C++ overload resolution reaches the Array overload is K + translator shape check). The stream object's own "
               "view (Socket error(), available() = unread bytes) has no theorem: the model has no failure state for reads of bytes that are there; the harness "
-              "checks error() after every socket operation and the `state` op compares available() with the model's unread byte count (K only). That a Socket read does not depend on the pieces in which the bytes arrive is now a theorem about the model the driver runs after `readerf` (pending pieces, sockRecvLoop = the receive loop of Socket_::read(void*, int) recognised statement by statement by G, returned variable regenerated as sockReadRet: socket_recv_loop_spec, socket_read_bytes_spec, socket_read_frag_eq_flat, socket_read_fragment_independent, socket_read_any_cuts, socket_read_back_any_cuts, gen_socket_read_returns_total; socket_last_chunk_depends_on_pieces shows a last-chunk return would not do); assumed and K only: that one recv() hands out a prefix of the pending bytes and at least one byte unless the peer closed (pieces are non-empty: hypothesis Live), and Socket >> String over pieces (`rs` after `readerf` is answered on the concatenation). File/Socket >> Array<String> is unmodelled and has no op (it is one >> String per item, so it shares the known finding below: "
+              "checks error() after every socket operation and the `state` op compares available() with the model's unread byte count (K only). That a Socket read does not depend on the pieces in which the bytes arrive is now a theorem about the model the driver runs after `readerf` (pending pieces, sockRecvLoop = the receive loop of Socket_::read(void*, int) recognised statement by statement by G, returned variable regenerated as sockReadRet: socket_recv_loop_spec, socket_read_bytes_spec, socket_read_frag_eq_flat, socket_read_fragment_independent, socket_read_any_cuts, socket_read_back_any_cuts, gen_socket_read_returns_total; socket_last_chunk_depends_on_pieces shows a last-chunk return would not do); assumed and K only: that one recv() hands out a prefix of the pending bytes and at least one byte unless the peer closed (pieces are non-empty: hypothesis Live); Socket >> String over pieces (prefix and body cut anywhere, readString cut to the returned count) likewise: socket_string_read_fragment_independent, op `rs` after `readerf`. File/Socket >> Array<String> is unmodelled and has no op (it is one >> String per item, so it shares the known finding below: "
               "<< Array<String> writes no lengths, >> expects one int32 length per item; gen_array_readers only shows that this path goes item by item). The out-of-bounds write "
               "repaired by e37681a is not expressible over lists: it is carried by the translator's whole-body shape check of File::operator>>(String&) and ASan. "
               "Not exercised: >> StreamBuffer through get_, const T[N] / const char[N] objects (string literals go to the const char* overload). "
